@@ -22,7 +22,10 @@ def run(ctx):
     need = ["accepted", "rejected", "rejected: overlaps with already", "rejected: invalid aggregation length",
             "rejected: invalid local preference", "accepted_addr_kind_0", "accepted_addr_kind_1", "accepted_addr_kind_2",
             "bgp_adv_attached", "l2_adv_attached", "localpref_pairs", "aggregate_probes", "parse_multi_cidr_range",
-            "parse_range_over_40_cidrs", "overlap_true", "membership_probes"]
+            "parse_range_over_40_cidrs", "overlap_true", "membership_probes",
+            "dualclash_lengths_differ_in_none_rejected", "dualclash_lengths_differ_in_ipv4_only_rejected",
+            "dualclash_lengths_differ_in_ipv6_only_rejected", "dualclash_lengths_differ_in_both_accepted",
+            "localpref_pairs_on_dualstack_pool", "route_probes_ipv4", "route_probes_ipv6"]
     if cases and not ctx.replay_in and not ctx.violations and not ctx.corr_broken and any(st.get(k, 0) == 0 for k in need):
         raise Exception("generator degenerate: %r" % st)
 
@@ -48,6 +51,6 @@ def run(ctx):
     ]
     ctx.assumptions += ["CRD admission (OpenAPI validation, webhooks) is not modelled: the theorems are about config.For on any resource set"]
     ctx.finish(len(cases), distinct,
-               "snapshots with 1-5 pools (CIDR, non-aligned CIDR, IPv4-mapped CIDR, ranges with spaces / mapped ends / crossing alignment boundaries, /31 /32, IPv6, top and bottom of the address space), namespace pinning, 1-5 L2/BGP advertisements (pool names, pool selectors, node selectors, aggregation lengths 0..33/0..129, local preferences, peers), nodes with internal IPs; "
+               "snapshots with 1-5 pools (single-family and dual-stack; every 8th snapshot is a dual-stack pool with two advertisements of different local preference whose aggregation lengths differ in no / IPv4 only / IPv6 only / both families, with and without peer lists; CIDR, non-aligned CIDR, IPv4-mapped CIDR, ranges with spaces / mapped ends / crossing alignment boundaries, /31 /32, IPv6, top and bottom of the address space), namespace pinning, 1-5 L2/BGP advertisements (pool names, pool selectors, node selectors, aggregation lengths 0..33/0..129, local preferences, peers), nodes with internal IPs; "
                "3n ParseCIDR strings over the whole address space; 2n cidrsOverlap pairs; non-trivial = accepted snapshot or successfully parsed address; distinct by JSON",
                [c["in"] for c in fc[:3]], search=search)
